@@ -9,7 +9,6 @@ verus! {
 #[verifier::external_body] pub struct Fill { _o: u8 }
 #[verifier::external_body] pub struct Border { _o: u8 }
 #[verifier::external_body] pub struct Alignment { _o: u8 }
-#[verifier::external_body] pub struct CellStyles { _o: u8 }
 #[verifier::external_body] pub struct Dxf { _o: u8 }
 // A-eq / A-clone (ASSUMED): the derived PartialEq of a component decides equality of values, the derived Clone yields an equal value
 impl PartialEqSpecImpl for Font { open spec fn obeys_eq_spec() -> bool { true } open spec fn eq_spec(&self, other: &Font) -> bool { *self == *other } }
@@ -27,6 +26,7 @@ impl Clone for Alignment { #[verifier::external_body] fn clone(&self) -> (r: Sel
 //@type base/src/types.rs CellStyleXfs
 //@type base/src/types.rs StyleIncludes
 //@type base/src/types.rs Style
+//@type base/src/types.rs CellStyles
 //@type base/src/types.rs Styles
 
 /// equality of styles as a user sees it: every component, the number format by its text
@@ -334,6 +334,51 @@ impl Styles {
         proof { if 0 <= index { assert(self.xf_ok(self.cell_xfs@[index as int])); } }
 //@end
 }
+// ---- named styles: update_named_style rejects every bad request BEFORE it touches the table (C04), and its last step cannot fail ----
+pub open spec fn has_name(cs: Seq<CellStyles>, n: Seq<char>) -> bool { exists|k: int| 0 <= k < cs.len() && (#[trigger] cs[k]).name@ == n }
+/// `name != new_name` on &str
+#[verifier::external_body]
+pub fn str_ne(a: &str, b: &str) -> (r: bool) ensures r == (a@ != b@) { a != b }
+impl Styles {
+//@fn base/src/styles.rs Styles::get_xf_id_by_name
+//@spec
+    ensures r.is_ok() == has_name(self.cell_styles@, style_name@),
+            r matches Ok(x) ==> exists|k: int| 0 <= k < self.cell_styles@.len() && (#[trigger] self.cell_styles@[k]).name@ == style_name@ && self.cell_styles@[k].xf_id == x,
+//@rewrite `-> Result<i32, String> {` => `-> (r: Result<i32, String>) {`
+//@rewrite* `cell_style.name == style_name` => `text_eq(&cell_style.name, style_name)`
+//@loop 1 it
+            invariant forall|k: int| 0 <= k < it.index@ ==> (#[trigger] self.cell_styles@[k]).name@ != style_name@
+//@end
+//@stub base/src/styles.rs Styles::is_builtin_style
+//@end
+// ASSUMED (iter_mut().find(closure) is outside Verus): renaming fails only when the old name is unknown, and touches only cell_styles
+//@stub base/src/styles.rs Styles::rename_named_style_entry
+    ensures has_name(old(self).cell_styles@, style_name@) ==> r.is_ok()
+//@end
+}
+/// update_named_style up to its first mutation: every Err leaves the table untouched; what gets past is a known, modifiable style, a
+/// new name that is free (or the same name), and an xf id that exists
+pub fn update_named_style_validated_prefix(styles: &mut Styles, name: &str, new_name: &str) -> (r: Result<i32, String>)
+    ensures *final(styles) == *old(styles),
+        r matches Ok(x) ==> has_name(old(styles).cell_styles@, name@) && (name@ == new_name@ || !has_name(old(styles).cell_styles@, new_name@))
+            && 0 <= x < old(styles).cell_style_xfs@.len(),
+{
+//@fragment base/src/styles.rs Model::update_named_style `if styles.is_builtin_style(name) {` .. `return Err(format!("Style '{name}' points to an invalid xf id"));`
+//@rewrite* `name != new_name` => `str_ne(name, new_name)`
+//@end
+    Ok(xf_id)
+}
+/// ... and its last step: the rename cannot fail once the old name is known (D2: the rewrite of the records in between does not touch cell_styles)
+pub fn update_named_style_rename_tail(styles: &mut Styles, name: &str, new_name: &str) -> (r: Result<(), String>)
+    requires has_name(old(styles).cell_styles@, name@)
+    ensures r.is_ok()
+{
+//@fragment base/src/styles.rs Model::update_named_style `if name != new_name {` .. `styles.rename_named_style_entry(name, new_name)?;`
+//@rewrite* `name != new_name` => `str_ne(name, new_name)`
+//@end
+    Ok(())
+}
+
 // ---- the cell side: every kind of cell carries its style index in `s` ----
 #[verifier::external_body] pub struct Error { _o: u8 }
 //@type base/src/types.rs FormulaValue
